@@ -80,6 +80,10 @@ def rake_cut():
         raked = I.fresh('raked', 'chips')
         unraked = I.fresh('unraked', 'chips')
         I.axiom(z3.Implies(znum(amount) >= 0, z3.And(raked + unraked == znum(amount), raked >= 0, unraked >= 0)))
+        if not hasattr(I, 'cut_log'):
+            I.cut_log = []
+        I.cut_log.append(('pokerkit.utilities.rake#raked', raked))
+        I.cut_log.append(('pokerkit.utilities.rake#unraked', unraked))
         return (raked, unraked)
     return cut
 
